@@ -399,6 +399,10 @@ class BaseTemplateFile(BaseTemplate):
 
     _v_last_read: tuple[Any, ...] | None
 
+    # Set if a byte order mark which the codec leaves in the decoded
+    # text is part of the body (the text is encoded again on output).
+    keep_byte_order_mark = False
+
     def __init__(
         self,
         filename: StrPath,
@@ -495,7 +499,8 @@ class BaseTemplateFile(BaseTemplate):
             with open(self.filename, "rb") as f:
                 data = f.read()
 
-        body, encoding, content_type = read_bytes(data, self.default_encoding)
+        body, encoding, content_type = read_bytes(
+            data, self.default_encoding, self.keep_byte_order_mark)
 
         self.content_type = content_type or self.default_content_type
         self.content_encoding = encoding
